@@ -354,6 +354,27 @@ def cases(rng, tier):
         if not all(target_ok(name, a[0], unit, n) for a in arr):
             continue
         out.append(mk1(name, unit, n, mod, maxd, (start, rng.choice([0, 5, 999999999])), arr))
+    # a trigger that lives through a change of the UTC offset: built up to two shifts before a transition (both
+    # directions), short intervals (the scheduled instant falls near the transition), records every few minutes
+    # until two shifts after it - the schedule is an INSTANT; whether a record is at or past it does not depend on
+    # what the wall clock shows on either side of the transition
+    dst_zones = [z for z in ZONES if dst_transitions(z, YEARS)]
+    for _ in range(500 if tier == "quick" else 8000):
+        name = rng.choice(dst_zones)
+        T = rng.choice(dst_transitions(name, YEARS))
+        init, trans = zone_table(name)
+        offs = [init] + [o for (_t, o, _f) in trans]
+        idx = [t for (t, _o, _f) in trans].index(T)
+        shift = abs(offs[idx + 1] - offs[idx]) or 3600
+        unit = rng.choice([0, 1, 1, 1, 2, 2])
+        n = rng.choice([1, 2, 3, 5, 7, 12, 25, 45, 90] if unit == 1 else [1, 2, 3, 7, 400] if unit == 0 else [1, 2, 3])
+        start = T - rng.below(2 * shift + 1)
+        t = start
+        arr = []
+        for _k in range(rng.range(2, 6)):
+            t += rng.choice([1, 60, 300, 600, 900, 1500, 1800, 2700, 3599, 3600, rng.below(2 * shift + 2)])
+            arr.append((t, rng.choice([0, 0, 1, 999999999])))
+        out.append(mk1(name, unit, n, rng.below(2), 0, (start, rng.choice([0, 5, 999999999])), arr))
     return out
 
 
@@ -606,8 +627,12 @@ def extra_checks(ctx, cases_, impl_lines, model_lines_):
         # (appends before / at / after boundaries, restarts, bursts, a roller that fails at a boundary): the
         # rotation precedes the firing record, one rotation per boundary, a failed one is not repeated
         from gen import xcheck
-        return xcheck.borrow(ctx, "C05", "the time trigger driving a rolling appender",
-                             lambda c: isinstance(c[0], list) and c[0] and c[0][0] == 3, n=200)
+        return (xcheck.borrow(ctx, "C05", "the time trigger driving a rolling appender",
+                              lambda c: isinstance(c[0], list) and c[0] and c[0][0] == 3, n=200)
+                # the interval the trigger schedules with is the one its configuration literal says ("3hours", "2\tweeks",
+                # "90 Minutes", a bare number = seconds): C20's interval literals
+                + xcheck.borrow(ctx, "C20", "the trigger's interval is what the configured literal says",
+                                lambda c: c[0] == 1, n=1500, seed_salt=11))
     i, want, got = bad
     name = _name(cases_[i])
     return [("get_next_time differs from the property's boundary (python datetime oracle; the zone offset is "
